@@ -24,6 +24,24 @@ CLAIMED = {
         "property-based testing against an exact bisection reference and a linear ramp model; stateful histories on the live trio",
         "DESIGN.md §4 C04",
     ),
+    "C05": (
+        "Model-based stateful property testing on the real vault (created through the real vault factory, native or cw20 asset) with four users and a programmable borrower contract: generated histories of deposits, withdrawals, deposit-then-withdraw, flash loans with generated callback programs (incl. re-entrant and nested), router loans, collections, fee changes and donations; after every step the assets backing one share (balance - pending fees)/supply are compared exactly, deposits mint <= pro-rata, withdrawals pay <= pro-rata, the first deposit's 1000 shares stay locked in the vault, rejected steps leave the world snapshot unchanged. Exploration with shrinking to minimal histories. The nested-loan fee recovery is a listed known finding whose signature bounds the shortfall.",
+        "Trusts cw-multi-test 0.16.5 as the chain. Token-factory LP not exercised. A contract panic counts as a rejected transaction.",
+        "stateful / model-based property testing (proptest histories + per-step invariant oracle)",
+        "DESIGN.md §4 C05",
+    ),
+    "C06": (
+        "Adversary enumeration plus random search: the borrower is a harness contract that executes a generated program in the flash-loan callback (repay exact / exact-1 / over / principal / fraction, deposit as plain or error-swallowing sub-message, withdraw, collect, nested loan, fail). (a) the alphabet enumerated to depth 2 with three amount classes (several thousand programs) x four loan-size classes x native/cw20 x fee triples; (b) random programs to depth 3 inside longer histories, direct and through the vault router (incl. a second router loan in the payload). Oracle per transaction: rejected => full world snapshot unchanged; accepted => loan counter 0, ledger grew by exactly the floor fees of every completed loan, burn fees left circulation, no shares minted during a loan, balance up by >= protocol+flash fees, exact quote suffices and one unit less never, router keeps nothing and pays exactly the quote.",
+        "Completed loans are read off the program (all messages of a successful transaction ran); fees are recomputed by the harness. The nested-loan fee recovery is a listed known finding (signature bounds the shortfall by the nested loans' fees).",
+        "fault/adversary enumeration + property-based testing of callback programs against a transaction-level oracle",
+        "DESIGN.md §4 C06",
+    ),
+    "C07": (
+        "Model-ledger stateful testing on a constant-product pair, a two-asset stableswap pair, a trio and a vault: histories of swaps / loans / collections (by anyone, repeated, with pending amounts zero, <= 1000 and above) / liquidity changes / fee changes; every swap's reported amounts are treated as claims and validated against independently observed balance, circulating-supply and ledger deltas; pending == charged - transferred after every step; a collection moves exactly the pending amounts to the configured collector and nobody else and leaves reserves unchanged; all-time counters equal the sums of charges.",
+        "Closed-world supply for native denoms (sum over all accounts and contracts created by the harness). cw-multi-test as the chain.",
+        "stateful property testing with an explicit reference ledger",
+        "DESIGN.md §4 C07",
+    ),
     "C02": (
         "Generated-input search (proptest, 16 deterministic shards) over the whole documented domain [1,2^128)^3 x valid fee triples x decimals, judged against an independent exact 1024-bit reference: gross floor, fee floors, strict bound, totality inside the 128-bit domain, there-and-back with the case's fees and with zero fees, gross monotone in the offer. Exploration, not proof: millions of cases per quick run, hundreds of millions thorough, with boundary constants and extreme-ratio shapes weighted in.",
         "Trusts refmath.rs (bnum integers, self-tested at start-up) and that commands::swap / queries::query_simulation call the hooked compute_swap (cross-checked by C14). A panic is an abort.",
